@@ -256,9 +256,11 @@ func (c *rapidContext) watchEvents(events <-chan supvmodel.Event) {
 		// At the moment we only get termination events.
 		// When their are other event types then we would need to be selective,
 		// about what we send to handleShutdownEvent().
-		c.shutdownContext.handleProcessExit(*termination)
-		vhook.At("watch.exitRecorded")
+		// Cancel before the exit is recorded: a reset waits for the recorded exit and then clears the flows,
+		// so a cancellation issued after it would hit the barriers of the next execution environment.
 		c.registrationService.CancelFlows(err)
+		vhook.At("watch.exitRecorded")
+		c.shutdownContext.handleProcessExit(*termination)
 	}
 }
 
